@@ -466,6 +466,13 @@ def run_unit(name, tier, repo=None, cache=None, probes=True):
         base['functions'] = [dict(key=e.key, file=e.file, lines=list(e.span), sha256=e.sha256, rules=e.rules) for e in ctx.extracted]
         base['trusted'] = trusted_scan(text) + list(getattr(unit, 'TRUSTED_EXTRA', []))
         base['notes'] = ctx.notes
+        if hasattr(unit, 'structural'):
+            sres = unit.structural(ctx)
+            base['structural_checks'] = [dict(name=n, ok=ok, found=d) for (n, ok, d) in sres]
+            badn = [n for (n, ok, d) in sres if not ok]
+            if badn:
+                raise Undecided('structural check(s) of unit %s differ from the pinned text: %s (a textual difference is not evidence of a defect; '
+                                'the assumption it backs no longer holds as stated)' % (unit.NAME, ', '.join(badn)))
         if unit.BACKEND == 'verus':
             r = verus_unit(unit, workdir, text, tier)
             tainted, counts = closure_taint(unit.NAME, ctx)
@@ -642,6 +649,9 @@ def run_probes(unit, ctx, text, workdir):
                 pi = probe_of(sp['line_start'])
                 if pi is not None:
                     rejected.add(pi)
+        if vr.get('verified', 0) + vr.get('errors', 0) < len(live):
+            raise Undecided('probe run of unit %s checked %d items for %d probes (verifier crash?): %s'
+                            % (unit.NAME, vr.get('verified', 0) + vr.get('errors', 0), len(live), ' '.join(r['raw'][:2])[:300]))
         vac = [i for i in live if i not in rejected]
         allowed = set(getattr(unit, 'PROBE_UNREACHABLE_OK', ()))
         vac = [i for i in vac if '%s:%d:%s' % (desc[i]['fn'], desc[i]['block'], desc[i]['point']) not in allowed]
